@@ -60,6 +60,7 @@ func isHeaderWrite(in ssa.Instruction) (recvReq ssa.Value, key ssa.Value, val ss
 func runC10(c *Ctx) {
 	p := c.P
 	noUserinfoOnRedirect(c, "R1")
+	verifyUsesOnlyVerifyAction(c, "R1")
 	// the secret sent to a host is the one the credential helper returned for that host: the helper is asked through
 	// the line protocol whose integrity C17 decides (shared)
 	c.RulePrefix = "C17/"
